@@ -130,4 +130,12 @@ TEXTS.update({
         'ref': 'DESIGN.md 4 C08; 3 OWN1 OWN2 OWN3 OWN7',
     },
 })
+TEXTS.update({
+    'C02': {
+        'level': "Decides necessary structural conditions of exact decoding: entry-point funnel, literal length/advance/type triples, the escape table and the UTF-16/UTF-8 constants against the RFCs (normalised), first-byte sets of the dispatch computed by dataflow over the guards, tail-append order of container members, key taken from the parsed string, int-view saturation. Exact decoding as a value (rounding, UTF-8 arithmetic) is not decided.",
+        'note': COMMON_NOTE + " RFC tables (RFC 8259 escapes, RFC 2781/3629 constants) are the oracle for the extracted tables.",
+        'technique': 'static analysis: table/constant extraction from the AST with normalisation, byte-set dataflow over guard conditions, idiom matching for list construction',
+        'ref': 'DESIGN.md 4 C02; 3 TAB2 TAB4 TAB5a TAB6 TAB7 LST1',
+    },
+})
 NOT_APPLICABLE = {}
